@@ -40,6 +40,7 @@ def run(p, led, tier):
         "The invariant is established by the constructor and preserved by every method, so it holds along every "
         "history (induction); 'total successful spend ≤ initial balances + debt limit' follows from exact charging.")
     led.exhaustive = True
+    led.level = "proof"
     led.not_decided = ["histories involving apply_debt_interest (excluded by the statement)", "concurrent histories (C05)", "callbacks that raise (on_state_change)"]
     led.assumptions = ["A4 amounts, capacities and the debt limit are non-negative integers", "the bounded entailment search is sound (it only ever accepts a goal it has derived from recorded facts)"]
     led.rule("C04-R1", "after every operation every balance is ≥ 0", 15)
